@@ -23,7 +23,7 @@ def known_rules(prop):
 # Scenario families per property: (family, quick count, thorough count).  Every property has
 # families in which no recorded finding can fire (n <= q, no late queueing, no fault) next to
 # the ones in which the findings live.
-SAFE = [("base", 150, 3000), ("pop", 60, 1500), ("queue", 60, 1500), ("stop", 60, 1500), ("manual", 40, 800), ("none", 30, 500)]
+SAFE = [("base", 150, 3000), ("pop", 60, 1500), ("queue", 60, 1500), ("stop", 60, 1500), ("stoppop", 80, 1500), ("manual", 40, 800), ("none", 30, 500)]
 FIND = [("nq", 60, 1200), ("latequeue", 40, 800), ("fault", 60, 1200)]
 
 SCHED_PLANS = {
@@ -35,7 +35,7 @@ SCHED_PLANS = {
     "C11": SAFE,
     "C12": [("base", 250, 5000), ("pop", 60, 1000), ("queue", 60, 1000), ("stop", 40, 800), ("nq", 40, 800)],
     "C13": [("base", 250, 5000), ("tail", 150, 3000), ("pop", 60, 1000), ("stop", 60, 1500), ("manual", 40, 800)],
-    "C14": [("stop", 250, 5000), ("stop@free", 150, 3000), ("base@free", 50, 1000), ("manual", 60, 1000), ("none", 60, 1000), ("base", 60, 1000)],
+    "C14": [("stop", 250, 5000), ("stoppop", 80, 1500), ("stop@free", 150, 3000), ("base@free", 50, 1000), ("manual", 60, 1000), ("none", 60, 1000), ("base", 60, 1000)],
     "C15": [("fault", 250, 5000), ("base", 40, 500)],
     "C16": SAFE + FIND,
     "C17": [("queue", 250, 5000), ("latequeue", 80, 1500), ("pop", 40, 800)],
